@@ -29,6 +29,45 @@ if os.path.exists(kf):
         what = " ".join(str(f.get("what", "")).split()).replace("|", "\\|")
         out.append(f"| {f['id']} | {f['property']} | {f['status']} | {f.get('commit', '') or '—'} | {what} |")
     out.append("")
+# seeded changes register (from seeded/*/meta.json + results.json)
+sd = os.path.join(V, "seeded")
+if os.path.isdir(sd):
+    out += ["### 14.01 Which check catches which seeded change (from `seeded/*/meta.json`)", "",
+            "Changes to curoverse/arvados made by fresh sub-agents that saw only the property text and a scratch "
+            "worktree (nothing from `/verif`); each compiles, passes the existing tests, and comes with a "
+            "demonstration that fails with the change and passes without it (re-confirmed by us). "
+            "`verdict` is what the owning check printed when run against the change in a scratch worktree "
+            "(`harness/seedtest.py`); `input` = VIOLATION with a concrete failing input as replay, "
+            "`no-input` = VIOLATION … no-failing-input-found (tie/correspondence break only). Details, and what "
+            "was strengthened because of a seed, are in each property's subsection below.", "",
+            "| seed | property | breaks / needs | verdict |", "|---|---|---|---|"]
+    for d in sorted(os.listdir(sd)):
+        mp = os.path.join(sd, d, "meta.json")
+        if not os.path.exists(mp):
+            continue
+        try:
+            m = json.load(open(mp))
+        except Exception:
+            continue
+        res = m.get("check_results") or {}
+        rp = os.path.join(sd, d, "results.json")
+        if os.path.exists(rp):
+            try:
+                res = json.load(open(rp))
+            except Exception:
+                pass
+        verdicts = []
+        for pid, r in sorted(res.items()):
+            if not isinstance(r, dict):
+                continue
+            v = " ".join(r.get("verdict", []))
+            if "VIOLATION" in v:
+                verdicts.append(f"{pid}: " + ("no-input" if "no-failing-input-found" in v else "input"))
+            else:
+                verdicts.append(f"{pid}: exit {r.get('exit')}")
+        what = " ".join((str(m.get("breaks", "")) + " — needs: " + str(m.get("needs", ""))).split()).replace("|", "\\|")
+        out.append(f"| {d} | {m.get('property', d[:3])} | {what[:400]} | {'; '.join(verdicts) or 'see notes'} |")
+    out.append("")
 nd = os.path.join(V, "notes")
 for fn in sorted(os.listdir(nd)) if os.path.isdir(nd) else []:
     if not re.match(r"C\d\d\.md$", fn):
